@@ -69,13 +69,21 @@ def oracle (obs : List V) (da db : GDesc) (opsA opsB : List HOp) (m : HOp) : Opt
   | [.a "panic"] => none  -- the build panicked: correspondence only
   | _ => some "malformed output"
 
+/-- How a start digraph may be produced before it is fixed up (by the harness, with plain calls)
+to the described digraph: conversions, generators, digraph-returning operations.  Whatever the
+route, the result denotes `desc`; by `C20.Determined` its structure is the one built directly. -/
+def viaKinds : List String :=
+  ["al", "am", "mx", "el",
+   "complete", "circuit", "cycle", "path", "star", "wheel", "biclique", "empty", "tournament", "erdos", "rrt",
+   "complement", "converse", "union", "filter"]
+
 /-- `[desc ops]` or `[desc ops via]` (`via`: the start was built in another representation and
 converted with `From`; a conversion preserves the abstract digraph — C16 — so by C20's
 `Determined` the structure is the one built directly, which is what the model builds). -/
 def parseHist : V → Option (GDesc × List HOp × Option String)
   | .l [d, ops] => do pure (← GDesc.parse d, ← V.listOf? HOp.parse ops, none)
   | .l [d, ops, .a via] =>
-    if via == "al" || via == "am" || via == "mx" || via == "el" then
+    if viaKinds.contains via then
       do pure (← GDesc.parse d, ← V.listOf? HOp.parse ops, some via)
     else none
   | _ => none
@@ -107,10 +115,66 @@ def hEqPair : Handler := fun _ args obs =>
       | _ => ("?", "?", "?")
     let detour := (opsA ++ opsB).any (fun o => match o with | .rem .. | .tog .. => true | _ => false)
     let tags := [repr, eqTag, cmpTag, retTag, sizeTag (min da.order 40)] ++ (if detour then ["detours"] else ["plain"])
-      ++ (if viaA.isSome || viaB.isSome then ["via-conversion"] else ["direct"])
+      ++ (match viaA.orElse (fun _ => viaB) with
+          | none => ["direct"]
+          | some v => if ["al", "am", "mx", "el"].contains v then ["via-conversion"]
+                      else if ["complement", "converse", "union", "filter"].contains v then ["via-operation"]
+                      else ["via-generator"])
     pure (classify obs modelOut propFail (nt := opsA.length + opsB.length ≥ 2) tags)
   | _ => none
 
-def handlers : List (String × Handler) := [("eq_pair", hEqPair)]
+/-- Model of `eq_clonefrom`: after `dst.clone_from(&src)` the destination IS the source value. -/
+def modelCloneFrom {σ : Type} [DecidableEq σ] (vw : View σ) (cmp : σ → σ → Ordering)
+    (d0 s0 : Option σ) (opsD opsS : List HOp) (m : HOp) : Option (List V) := do
+  let _ ← replay vw (← d0) opsD
+  let src ← replay vw (← s0) opsS
+  let dst := src
+  let head := V.l [V.ofBool (decide (dst = src)), ordToV (cmp dst src), V.ofBool true]
+  let (dst', ret) ← vw.step dst m
+  pure [head, obs3 vw dst, obs3 vw src, .l [outToV ret, obs3 vw src, obs3 vw dst']]
+
+def oracleCloneFrom (obs : List V) (dsrc : GDesc) (opsS : List HOp) (m : HOp) : Option String :=
+  match obs with
+  | [.l [eq, cmp, heq], od, os, .l [ret, os', od']] =>
+    match specSide dsrc opsS m with
+    | some (ss, sret, ss') =>
+      if os != ss then some s!"source disagrees with the arc-set spec: {(toString ss).take 300}"
+      else if od != os then some s!"clone_from: destination shows {(toString od).take 200}, source {(toString os).take 200}"
+      else if eq != V.ofBool true then some "after clone_from: destination != source (equal observations)"
+      else if heq != V.ofBool true then some "after clone_from: hashes differ"
+      else if cmp != V.a "equal" then some s!"after clone_from: cmp = {cmp}"
+      else if os' != os then some "mutating the destination changed the source"
+      else if ret != outToV sret || od' != ss' then some s!"mutated destination wrong: spec {outToV sret} {(toString ss').take 300}"
+      else none
+    | none => none
+  | [.a "panic"] => none
+  | _ => some "malformed output"
+
+def hCloneFrom : Handler := fun _ args obs =>
+  match args with
+  | [.a repr, hd, hs, m] => do
+    let (dd, opsD, viaD) ← parseHist hd
+    let (ds, opsS, viaS) ← parseHist hs
+    let m ← HOp.parse m
+    if dd.repr != repr || ds.repr != repr then none
+    if !((m :: opsD ++ opsS).all (supported repr)) then none
+    if (viaD.isSome || viaS.isSome) && (repr == "wu" || repr == "wi") then none
+    let model : Option (List V) ← match repr with
+      | "al" => some (modelCloneFrom viewAL AdjList.cmp (buildAL dd) (buildAL ds) opsD opsS m)
+      | "am" => some (modelCloneFrom viewAM AdjMap.cmp (buildAM dd) (buildAM ds) opsD opsS m)
+      | "mx" => some (modelCloneFrom viewMX AdjMatrix.cmp (buildMX dd) (buildMX ds) opsD opsS m)
+      | "el" => some (modelCloneFrom viewEL EdgeList.cmp (buildEL dd) (buildEL ds) opsD opsS m)
+      | "wu" | "wi" => some (modelCloneFrom viewW AdjListW.cmp (buildW dd) (buildW ds) opsD opsS m)
+      | _ => none
+    let modelOut := model.getD [V.a "panic"]
+    let propFail := oracleCloneFrom obs ds opsS m
+    let blocks (n : Nat) : Nat := (n * n + 63) / 64
+    let shape := if dd.order == ds.order then "same-order"
+      else if repr == "mx" && blocks dd.order == blocks ds.order then "same-blocks-other-order" else "other-shape"
+    pure (classify obs modelOut propFail (nt := dd.order != ds.order || dd.arcs.length + ds.arcs.length > 0)
+      [repr, "clone-from", shape, sizeTag (min ds.order 40)])
+  | _ => none
+
+def handlers : List (String × Handler) := [("eq_pair", hEqPair), ("eq_clonefrom", hCloneFrom)]
 
 end GraafVerif.Driver.H20
